@@ -45,27 +45,202 @@ theorem mkEntry_frame {f fl : W} (hf : FrameOK f) (hfl : FlagsOK fl) : mkEntry f
   rw [mkEntry_eq, BitVec.and_or_distrib_right, shl12_and_hwMask hf, hfl]; simp
 
 theorem shl12_and_low {f : W} (k : W) (hk : k.toNat < 4096) : (f <<< 12) &&& k = 0#64 := by
-  apply BitVec.eq_of_toNat_eq
-  rw [BitVec.toNat_and]
-  simp only [BitVec.toNat_shiftLeft, Nat.shiftLeft_eq, BitVec.toNat_ofNat]
-  apply Nat.eq_of_testBit_eq; intro i
-  simp only [Nat.testBit_and, Nat.zero_testBit, Nat.zero_mod]
-  by_cases hi : i < 12
-  · have : (f.toNat * 2 ^ 12 % 2 ^ 64).testBit i = false := by
-      rw [Nat.testBit_mod_two_pow]
-      have : (f.toNat * 2 ^ 12).testBit i = false := by
-        rw [Nat.mul_comm, ← Nat.shiftLeft_eq', Nat.testBit_shiftLeft]; simp; omega
-      simp [this]
-    simp [this]
-  · have : k.toNat.testBit i = false := by
-      apply Nat.testBit_lt_two_pow
-      calc k.toNat < 4096 := hk
-        _ = 2 ^ 12 := by norm_num
+  ext i hi
+  simp only [BitVec.getElem_and, BitVec.getElem_shiftLeft, BitVec.getElem_zero]
+  by_cases h : i < 12
+  · simp [h]
+  · have : k[i] = false := by
+      rw [BitVec.getElem_eq_testBit_toNat]; apply Nat.testBit_lt_two_pow
+      calc k.toNat < 2 ^ 12 := hk
         _ ≤ 2 ^ i := Nat.pow_le_pow_right (by omega) (by omega)
     simp [this]
 
 /-- the flag bits of an installed entry are exactly the requested ones (below bit 12) -/
 theorem mkEntry_low {f fl : W} (k : W) (hk : k.toNat < 4096) : mkEntry f fl &&& k = fl &&& k := by
   rw [mkEntry_eq, BitVec.and_or_distrib_right, shl12_and_low k hk]; simp
+
+/-! ### `Map` / `Unmap` callbacks -/
+theorem hasFlags_present_false {e : W} (h : e &&& 1#64 = 0#64) : hasFlags e fPresent = false := by
+  cases hf : hasFlags e fPresent
+  · rfl
+  · exact absurd h ((hasFlags_present _).1 hf)
+
+theorem hasFlags_huge_false {e : W} (h : e &&& 128#64 = 0#64) : hasFlags e fHuge = false := by
+  cases hf : hasFlags e fHuge
+  · rfl
+  · exact absurd h ((hasFlags_huge _).1 hf)
+
+theorem mapCb_present {page frame flags ea : W} {L : Nat} (hL : L < 3) {loc : Loc} {err : Nat} {st : St}
+    (hp : st.rdLoc loc &&& 1#64 ≠ 0#64) (hh : st.rdLoc loc &&& 128#64 = 0#64) :
+    mapCb page frame flags L ea loc err st = .ok ((true, err), st) := by
+  have h1 : ¬ L = pageLevels - 1 := by simp [pageLevels]; omega
+  simp [mapCb, h1, hasFlags_huge_false hh, (hasFlags_present _).2 hp]
+
+theorem mapCb_leaf {page frame flags ea : W} {loc : Loc} {err : Nat} {st : St} :
+    mapCb page frame flags 3 ea loc err st =
+      .ok ((true, err), (st.wrLoc loc (mkEntry frame flags)).flush (pageAddr page)) := by
+  simp [mapCb, pageLevels]
+
+theorem unmapCb_present {page ea : W} {L : Nat} (hL : L < 3) {loc : Loc} {err : Nat} {st : St}
+    (hp : st.rdLoc loc &&& 1#64 ≠ 0#64) (hh : st.rdLoc loc &&& 128#64 = 0#64) :
+    unmapCb page L ea loc err st = .ok ((true, err), st) := by
+  have h1 : ¬ L = pageLevels - 1 := by simp [pageLevels]; omega
+  simp [unmapCb, h1, hasFlags_huge_false hh, (hasFlags_present _).2 hp]
+
+theorem unmapCb_absent {page ea : W} {L : Nat} (hL : L < 3) {loc : Loc} {err : Nat} {st : St}
+    (hp : st.rdLoc loc &&& 1#64 = 0#64) :
+    unmapCb page L ea loc err st = .ok ((false, eInvalidMapping), st) := by
+  have h1 : ¬ L = pageLevels - 1 := by simp [pageLevels]; omega
+  simp [unmapCb, h1, hasFlags_present_false hp]
+
+theorem unmapCb_leaf {page ea : W} {loc : Loc} {err : Nat} {st : St} :
+    unmapCb page 3 ea loc err st =
+      .ok ((true, err), (st.wrLoc loc (clearFlags (st.rdLoc loc) fPresent)).flush (pageAddr page)) := by
+  simp [unmapCb, pageLevels]
+
+/-- the three upper levels of `va`'s path exist: `R -i0-> T1 -i1-> T2 -i2-> T3`, `T3` is RAM -/
+structure Path (m : Mem) (R va T1 T2 T3 : W) : Prop where
+  l0 : Link m R (kidx va 0) T1
+  l1 : Link m T1 (kidx va 1) T2
+  l2 : Link m T2 (kidx va 2) T3
+  b3 : m.backed (frameN T3) = true
+
+theorem Path.chain3 {m : Mem} {R va T1 T2 T3 : W} (p : Path m R va T1 T2 T3) : Chain m R va 3 T3 :=
+  ⟨T2, ⟨T1, ⟨R, rfl, p.l0⟩, p.l1⟩, p.l2⟩
+
+/-- `walk` with a callback that passes the three upper levels unchanged reaches the leaf entry -/
+theorem walk_to_leaf {σ : Type} {st : St} {R va T1 T2 T3 : W} (hw : Window st R) (p : Path st.mem R va T1 T2 T3)
+    (fn : Walker σ) (a : σ)
+    (hfn : ∀ L ea loc, L < 3 → st.rdLoc loc &&& 1#64 ≠ 0#64 → st.rdLoc loc &&& 128#64 = 0#64 →
+      fn L ea loc a st = .ok ((true, a), st)) :
+    walk fn va a st =
+      match fn 3 (E va 3) (frameN T3, kidx va 3) a st with
+      | .error e => .error e
+      | .ok ((_, a), st) => .ok (a, st) := by
+  have c0 : Chain st.mem R va 0 R := rfl
+  have c1 : Chain st.mem R va 1 T1 := ⟨R, c0, p.l0⟩
+  have c2 : Chain st.mem R va 2 T2 := ⟨T1, c1, p.l1⟩
+  rw [walk_eq,
+    walkFrom_step _ _ _ _ _ _ _ (ptePtr_E hw va 0 R (by omega) c0 p.l0.backed),
+    hfn 0 _ (frameN R, kidx va 0) (by omega) p.l0.present p.l0.nohuge]
+  simp only
+  rw [walkFrom_step _ _ _ _ _ _ _ (ptePtr_E hw va 1 T1 (by omega) c1 p.l1.backed),
+    hfn 1 _ (frameN T1, kidx va 1) (by omega) p.l1.present p.l1.nohuge]
+  simp only
+  rw [walkFrom_step _ _ _ _ _ _ _ (ptePtr_E hw va 2 T2 (by omega) c2 p.l2.backed),
+    hfn 2 _ (frameN T2, kidx va 2) (by omega) p.l2.present p.l2.nohuge]
+  simp only
+  rw [walkFrom_step _ _ _ _ _ _ _ (ptePtr_E hw va 3 T3 (by omega) p.chain3 p.b3)]
+  cases fn 3 (E va 3) (frameN T3, kidx va 3) a st with
+  | error e => rfl
+  | ok r =>
+    obtain ⟨⟨b, a'⟩, st'⟩ := r
+    cases b <;> simp [walkFrom]
+
+/-- `Map` on a page whose three upper levels exist: exactly one word of memory changes (the leaf
+entry becomes `frame<<12 | flags`), the page's address is flushed, nothing is allocated. -/
+theorem mapOp_present {st : St} {R T1 T2 T3 : W} (page frame flags : W) (hw : Window st R)
+    (p : Path st.mem R (pageAddr page) T1 T2 T3)
+    (hg : (st.protect && frame == st.zeroFrame && (flags &&& fRW) != 0) = false) :
+    mapOp st page frame flags =
+      .ok (0, (st.wrLoc (frameN T3, kidx (pageAddr page) 3) (mkEntry frame flags)).flush (pageAddr page)) := by
+  unfold mapOp
+  rw [hg]
+  simp only [Bool.false_eq_true, if_false]
+  rw [walk_to_leaf hw p (mapCb page frame flags) 0 (fun L ea loc hL hp hh => mapCb_present hL hp hh), mapCb_leaf]
+
+/-- `Unmap` on a page whose three upper levels exist clears the present bit of the leaf entry -/
+theorem unmapOp_present {st : St} {R T1 T2 T3 : W} (page : W) (hw : Window st R)
+    (p : Path st.mem R (pageAddr page) T1 T2 T3) :
+    unmapOp st page =
+      .ok (0, (st.wrLoc (frameN T3, kidx (pageAddr page) 3)
+        (clearFlags (st.mem.rd (frameN T3) (kidx (pageAddr page) 3)) fPresent)).flush (pageAddr page)) := by
+  unfold unmapOp
+  rw [walk_to_leaf hw p (unmapCb page) 0 (fun L ea loc hL hp hh => unmapCb_present hL hp hh), unmapCb_leaf]
+  rfl
+
+/-- `Unmap` when level `L < 3` of the path is missing: `ErrInvalidMapping`, nothing changes -/
+theorem unmapOp_absent {st : St} {R : W} (page : W) (hw : Window st R) (L : Nat) (hL : L < 3) (T : W)
+    (hc : Chain st.mem R (pageAddr page) L T) (hb : st.mem.backed (frameN T) = true)
+    (hp : st.mem.rd (frameN T) (kidx (pageAddr page) L) &&& 1#64 = 0#64) :
+    unmapOp st page = .ok (eInvalidMapping, st) := by
+  unfold unmapOp
+  rw [walk_eq]
+  have h : L = 0 ∨ L = 1 ∨ L = 2 := by omega
+  rcases h with h | h | h <;> subst h
+  · simp only [Chain] at hc; subst hc
+    rw [walkFrom_step _ _ _ _ _ _ _ (ptePtr_E hw _ 0 _ (by omega) rfl hb), unmapCb_absent (by omega) (by exact hp)]
+  · obtain ⟨T0, h0, l0⟩ := hc; simp only [Chain] at h0; subst h0
+    rw [walkFrom_step _ _ _ _ _ _ _ (ptePtr_E hw _ 0 _ (by omega) rfl l0.backed),
+      unmapCb_present (by omega) (by exact l0.present) (by exact l0.nohuge)]
+    simp only
+    rw [walkFrom_step _ _ _ _ _ _ _ (ptePtr_E hw _ 1 _ (by omega) ⟨_, rfl, l0⟩ hb), unmapCb_absent (by omega) (by exact hp)]
+  · obtain ⟨T1, ⟨T0, h0, l0⟩, l1⟩ := hc; simp only [Chain] at h0; subst h0
+    rw [walkFrom_step _ _ _ _ _ _ _ (ptePtr_E hw _ 0 _ (by omega) rfl l0.backed),
+      unmapCb_present (by omega) (by exact l0.present) (by exact l0.nohuge)]
+    simp only
+    rw [walkFrom_step _ _ _ _ _ _ _ (ptePtr_E hw _ 1 _ (by omega) ⟨_, rfl, l0⟩ l1.backed),
+      unmapCb_present (by omega) (by exact l1.present) (by exact l1.nohuge)]
+    simp only
+    rw [walkFrom_step _ _ _ _ _ _ _ (ptePtr_E hw _ 2 _ (by omega) ⟨_, ⟨_, rfl, l0⟩, l1⟩ hb),
+      unmapCb_absent (by omega) (by exact hp)]
+
+/-! ### region loops -/
+/-- `Map` called on each (page, frame) of a list in order, stopping at the first error -/
+def seqMap (flags : W) : List (W × W) → St → R Nat
+  | [], st => .ok (0, st)
+  | (p, f) :: rest, st =>
+    match mapOp st p f flags with
+    | .error e => .error e
+    | .ok (err, st) => if err ≠ 0 then .ok (err, st) else seqMap flags rest st
+
+/-- `n` consecutive pages from `page` paired with `n` consecutive frames from `frame` -/
+def run (page frame : W) : Nat → List (W × W)
+  | 0 => []
+  | n + 1 => (page, frame) :: run (page + 1) (frame + 1) n
+
+theorem mapLoop_eq_seqMap (flags : W) (n : Nat) (page frame : W) (st : St) :
+    mapLoop flags n page frame st = seqMap flags (run page frame n) st := by
+  induction n generalizing page frame st with
+  | zero => rfl
+  | succ n ih =>
+    simp only [mapLoop, run, seqMap]
+    cases mapOp st page frame flags with
+    | error e => rfl
+    | ok r => obtain ⟨err, st'⟩ := r; simp only [ih]
+
+theorem run_get (page frame : W) (n i : Nat) (hi : i < n) :
+    (run page frame n)[i]? = some (page + BitVec.ofNat 64 i, frame + BitVec.ofNat 64 i) := by
+  induction n generalizing page frame i with
+  | zero => omega
+  | succ n ih =>
+    cases i with
+    | zero => simp [run]
+    | succ i =>
+      simp only [run, List.getElem?_cons_succ]
+      rw [ih _ _ i (by omega)]
+      have : ∀ x : W, x + 1 + BitVec.ofNat 64 i = x + BitVec.ofNat 64 (i + 1) := by
+        intro x; apply BitVec.eq_of_toNat_eq; simp [BitVec.toNat_add, BitVec.toNat_ofNat]; omega
+      rw [this, this]
+
+theorem run_length (page frame : W) (n : Nat) : (run page frame n).length = n := by
+  induction n generalizing page frame with
+  | zero => rfl
+  | succ n ih => simp [run, ih]
+
+theorem roundUp_pages (size : W) (h : roundWraps size = false) :
+    (roundUp size >>> pageShift).toNat = (size.toNat + 4095) / 4096 := by
+  have hle : size.toNat ≤ 2 ^ 64 - 4096 := by
+    unfold roundWraps at h
+    have h' : ¬ (size > ~~~(pageSizeW - 1)) := by simpa using h
+    have hc : (~~~(pageSizeW - 1)).toNat = 2 ^ 64 - 4096 := by decide
+    rw [gt_iff_lt, BitVec.lt_def, hc] at h'
+    omega
+  have hps : pageSizeW - 1 = 4096#64 - 1 := by decide
+  unfold roundUp
+  rw [hps, show pageShift = 12 from rfl, Firefly.Bits.toNat_ushr12, Firefly.Bits.toNat_and_mask12, BitVec.toNat_add]
+  have : (4096#64 - 1).toNat = 4095 := by decide
+  rw [this]
+  omega
 
 end Firefly.Vmm
